@@ -28,6 +28,7 @@ ASSUMPTIONS = [
     "call that all previously present bytes are unchanged)",
 ]
 OBLIGATIONS = {
+    "directory_spelled_differently": "in-process histories in which successive batches name the same data directory by different path strings",
     "fit_exactly": "a record filled a file exactly to the limit",
     "miss_by_one": "a record missed the remaining space by one byte and forced a rollover",
     "rollover": "a new file was started",
@@ -55,7 +56,18 @@ def _p2p():
 
 
 def blk(serial, size):
-    return bytes((serial * 37 + i * 101 + 11) % 256 for i in range(size))
+    """block contents: a byte pattern; every second block (where it is long enough) LOOKS like record framing - it ends with the
+    network magic followed by ff ff ff ff (a 'record' running far past the end of the file), or carries magic + a small length
+    in its middle, or ends with the bare magic.  The store must treat contents as opaque."""
+    b = bytearray((serial * 37 + i * 101 + 11) % 256 for i in range(size))
+    kind = serial % 6
+    if kind == 1 and size >= 8:
+        b[size - 8:] = MAGIC + b"\xff\xff\xff\xff"
+    elif kind == 3 and size >= 9:
+        b[1:9] = MAGIC + (1).to_bytes(4, "little")
+    elif kind == 5 and size >= 4:
+        b[size - 4:] = MAGIC
+    return bytes(b)
 
 
 def alphabet(L):
@@ -235,11 +247,37 @@ def fresh_p2p():
     return m
 
 
+SPELLINGS = ["plain", "trailing-slash", "dot-segment", "double-slash", "symlink", "dotdot"]
+
+
+def spelled(path, how, base):
+    """another way of writing the SAME directory (the store is the directory, not the string)"""
+    name = os.path.basename(path)
+    if how == "trailing-slash":
+        return path + "/"
+    if how == "dot-segment":
+        return os.path.join(base, ".", name)
+    if how == "double-slash":
+        return base + "//" + name
+    if how == "dotdot":
+        os.makedirs(os.path.join(base, "x"), exist_ok=True)
+        return os.path.join(base, "x", "..", name)
+    if how == "symlink":
+        os.makedirs(path, exist_ok=True)          # (the directory exists by the time a second spelling is used; harmless otherwise)
+        link = os.path.join(base, "link-" + name)
+        if not os.path.islink(link):
+            os.symlink(path, link)
+        return link
+    return path
+
+
 def chk_history(case):
-    """history of batches in one process image; restart mask; optional second data directory"""
+    """history of batches in one process image; restart mask; optional second data directory; optional spelling of the data
+    directory per batch"""
     L = case["L"]
     base = os.path.join(scratch_dir(), "c19-hist")
     shutil.rmtree(base, ignore_errors=True)
+    os.makedirs(base)
     dirs = [os.path.join(base, "a"), os.path.join(base, "b")]
     refs = [R.Store({}, L), R.Store({}, L)]
     serial = 0
@@ -252,7 +290,8 @@ def chk_history(case):
         blocks = [blk(serial + j, s) for j, s in enumerate(batch)]
         serial += len(blocks)
         before = refs[d].copy()
-        err = lib_call(mod, blocks, dirs[d], L)
+        how = case["spell"][i] if case.get("spell") else "plain"
+        err = lib_call(mod, blocks, spelled(dirs[d], how, base), L)
         refs[d] = ref_after(before, blocks, L)
         if err:
             out.append((f"C19/raised/{err.split(':')[0]}", f"batch #{i} {batch} raised {err} in history {case['batches']}"))
@@ -260,7 +299,7 @@ def chk_history(case):
         v = compare(dirs[d], refs[d], before, L)
         if v:
             out += [(k, f"after batch #{i} of history {case['batches']} restarts={case['restarts']} "
-                     f"dirs={case.get('dirs')}: {dsc}") for k, dsc in v]
+                     f"dirs={case.get('dirs')}{' spellings=' + str(case['spell']) if case.get('spell') else ''}: {dsc}") for k, dsc in v]
             break
         # the other directory must be untouched
         o = 1 - d
@@ -649,6 +688,20 @@ def run_job(job):
                 acc.executions += 1
                 acc.transitions += 3
                 acc.nontrivial += sum(1 for b in hist if b)
+                acc.check("history", case, chk_history)
+        # the same directory written differently from batch to batch (trailing slash, ./, //, x/.., a symbolic link), same process image
+        for hist in itertools.product(B1, repeat=3):
+            for sp in (["plain", "trailing-slash", "plain"], ["trailing-slash", "plain", "plain"], ["plain", "symlink", "plain"],
+                       ["dot-segment", "double-slash", "dot-segment"], ["plain", "plain", "dotdot"], ["symlink", "trailing-slash", "symlink"]):
+                idx += 1
+                if idx % nsh != sh:
+                    continue
+                case = {"L": L, "batches": [list(b) for b in hist], "restarts": [0, 0], "spell": sp}
+                acc.evaluations += 3
+                acc.executions += 1
+                acc.transitions += 3
+                acc.nontrivial += sum(1 for b in hist if b)
+                acc.ob("directory_spelled_differently")
                 acc.check("history", case, chk_history)
         if sh == 0:
             # ONE long history: 300 batches of 1..3 blocks cycling through the size alphabet (more than 100 files, every
